@@ -163,12 +163,34 @@ class RowFn(UserFn):
             if self.out_rank == 0:
                 return Tensor(STensor([], lambda idx: outs[0], self.dtype))
             raise Unsupported("constant row function of rank > 0")
-        batch = ts[0].shape[:-1]
+        # batch shape = broadcast of the arguments' batch shapes (size-1 axes broadcast, e.g. parameters (1, d))
         for t, a in zip(ts, self.args):
             if t.rank < 1 or t.shape[-1].concrete() != self.argdims[a]:
                 raise Unsupported(f"row function {self.name}: argument {a} has unexpected trailing dim {t.shape}")
-            if len(t.shape) - 1 != len(batch) or not all(x.same(y) for x, y in zip(t.shape[:-1], batch)):
-                raise Unsupported(f"row function {self.name}: arguments with different batch shapes")
+        rank = max(len(t.shape) - 1 for t in ts)
+        batch = [None] * rank
+        for t in ts:
+            bs = t.shape[:-1]
+            for k, d in enumerate(bs):
+                pos = rank - len(bs) + k
+                if d.is_one:
+                    continue
+                if batch[pos] is None:
+                    batch[pos] = d
+                elif not batch[pos].same(d):
+                    if not I.ctx.entails(batch[pos].size_term() == d.size_term()):
+                        raise Unsupported(f"row function {self.name}: arguments with different batch shapes")
+        batch = [d if d is not None else Dim([]) for d in batch]
+        full_batch = batch
+
+        def arg_index(t, bi):
+            bs = t.shape[:-1]
+            out = []
+            for k, d in enumerate(bs):
+                pos = rank - len(bs) + k
+                out.append(() if d.is_one else bi[pos])
+            return out
+
         fnself = self
 
         def fn(idx):
@@ -177,7 +199,7 @@ class RowFn(UserFn):
             for t, a in zip(ts, fnself.args):
                 dm = fnself.argdims[a]
                 for k in range(dm):
-                    ins.append(zreal(t.at(bi + [(k,) if dm != 1 else ()])))
+                    ins.append(zreal(t.at(arg_index(t, bi) + [(k,) if dm != 1 else ()])))
             outs = fnself.value_terms(ins)
             if fnself.on_value is not None:
                 fnself.on_value(I, ins, outs)
